@@ -23,7 +23,7 @@ PLAN = {
         "contracts": ["contracts.parser_cache"],
     },
     "C06": {
-        "level": "proof",
+        "level": "exploration",
         "contracts": ["contracts.parser_state"],
         "bounded": ["bounded.c06_termination"],
     },
@@ -53,6 +53,46 @@ PLAN = {
 }
 
 MANIFEST_TEXT = {
+    "C06": {
+        "text": "Termination of the Earley work-list is reduced to a proof obligation on the real ParseState.__eq__/__hash__ "
+                "(equal states must hash equally, else Column.add admits unboundedly many states): generated and sent to the "
+                "solver on every run - it FAILS on this tree and is a recorded known finding (D6). Everything else about "
+                "termination is only a bounded stand-in: each parse request of a 50-grammar family runs under a wall-clock "
+                "budget in a child process. Evidence level is therefore exploration, not proof.",
+        "note": "bounded part: finite family, budget = max(20 s, 12 x calibration); grammars of the known class are represented "
+                "by 8 listed witnesses; the variant argument for the work-list loop itself is not mechanised.",
+        "technique": "contract obligation (hash/eq consistency) over the real source via own VC generator + bounded run-time check under a budget",
+    },
+    "C09": {
+        "text": "Contracts on the real TreeValue.append/_reduce_trailing_bits/to_bytes/to_string/to_bits and "
+                "DerivationTree.value: bit content of the result = concatenation of the operands' bit contents, raises exactly "
+                "when text/bytes follow a non-aligned run of bits, the three views agree, the operand `other` is not written, "
+                "value() is the in-order fold of the children (loop invariant, nesting independent). All VCs discharged for "
+                "all payloads (symbolic strings / bit sequences), per kind combination.",
+        "note": "codecs (utf-8, latin-1, bit packing, '08b' rendering) are uninterpreted functions with assumed homomorphism / "
+                "inverse laws applied as ground instances; three comprehension expressions in to_bits and the 0/1 assertion in "
+                "__init__ get their meaning from the contract (expr_hooks); terminal leaves' stored values and to_int are not covered.",
+        "technique": "contract-based deductive verification: own VC generator over the real source, sequence theory, z3",
+    },
+    "C12": {
+        "text": "Object invariant of the parser's forest cache (an entry holds the complete forest of its key) as an obligation "
+                "at EVERY yield of the real generator Parser.parse_forest and at return, plus ownership (a yielded tree is never "
+                "the cached object) and one yielded tree per forest entry on hit and miss path; all discharged.",
+        "note": "the iterative (Earley) parser is an assumed contract: the forest is a function of (word, start, mode, hookin_parent); "
+                "deepcopy/collapse/to_derivation_tree return new trees (assumed); Repetition.iteration counters only feed "
+                "origin tags, outside tree equality.",
+        "technique": "contract-based deductive verification: generator invariants at yield points, own VC generator, z3",
+    },
+    "C18": {
+        "text": "Frame condition over module- and class-level state decided by effect inference over the AST of the whole "
+                "package on every run: nothing written by code reachable from the Fandango entry points is also read by "
+                "reachable code, except an allowed list; the one violation on this tree (nodes.MAX_REPETITIONS) is a recorded "
+                "known finding with a native replay.",
+        "note": "sound for the listed syntactic write forms (global, module.attr, Class.attr, in-place mutation of module-level "
+                "containers / mutable class attributes / mutable defaults); blind to setattr/globals()/exec; call graph by "
+                "simple name (over-approximation); global `random` state excluded by the property's 'fixed seeds'.",
+        "technique": "frame condition by effect inference over the real source (AST), no solver",
+    },
     "C07": {
         "text": "Verdict algebra proved function by function on the real source: every fitness() override (expression, "
                 "comparison, conjunction, disjunction, implication, forall, exists) returns a result whose `success` equals "
